@@ -107,7 +107,7 @@ def pint(a, lo, hi):
     return r
 
 
-def biform_1d(kv1_float, p1, kv2_float, p2, du, dv, weight=None):
+def biform_1d(kv1_float, p1, kv2_float, p2, du, dv, weight=None, spans=None):
     """exact matrix  A[i][j] = int w * N2_i^(dv) * N1_j^(du)   (rows: kv2 test functions, columns: kv1 trial functions);
     both knot vectors must have the same break points; weight: polynomial coefficient list or None"""
     kv1 = [fr(x) for x in kv1_float]
@@ -115,7 +115,9 @@ def biform_1d(kv1_float, p1, kv2_float, p2, du, dv, weight=None):
     n1, n2 = len(kv1) - p1 - 1, len(kv2) - p2 - 1
     A = [[Fraction(0)] * n1 for _ in range(n2)]
     mesh = sorted(set(kv1))
-    for lo, hi in zip(mesh[:-1], mesh[1:]):
+    for ks, (lo, hi) in enumerate(zip(mesh[:-1], mesh[1:])):
+        if spans is not None and not (spans[0] <= ks < spans[1]):
+            continue            # integral over a sub-range of the mesh spans only
         s1 = max(k for k in range(len(kv1) - 1) if kv1[k] <= lo and kv1[k] < kv1[k + 1] and kv1[k + 1] >= hi)
         s2 = max(k for k in range(len(kv2) - 1) if kv2[k] <= lo and kv2[k] < kv2[k + 1] and kv2[k + 1] >= hi)
         N1 = basis_poly(kv1, p1, s1)
